@@ -1,11 +1,12 @@
 (* Entry point of the extracted evaluator. *)
 From Coq Require Import String.
-From HS Require Import Lib.Base Run.Val Run.ServeRun Run.ServeSpec Run.NegotRun Run.StreamRun Run.DirRun.
+From HS Require Import Lib.Base Run.Val Run.ServeRun Run.ServeSpec Run.NegotRun Run.StreamRun Run.DirRun Run.FileRun.
 
 Definition E_SERVE := bs "serve"%string.
 Definition E_NEGOT := bs "negot"%string.
 Definition E_STREAM := bs "stream"%string.
 Definition E_DIR := bs "dir"%string.
+Definition E_FILE := bs "file"%string.
 
 Definition run_case (engine : bytes) (v : val) : val :=
   if beq_bytes engine E_SERVE then
@@ -26,4 +27,5 @@ Definition run_case (engine : bytes) (v : val) : val :=
   else if beq_bytes engine E_NEGOT then run_negot v
   else if beq_bytes engine E_STREAM then run_stream v
   else if beq_bytes engine E_DIR then run_dir v
+  else if beq_bytes engine E_FILE then run_file v
   else VL [finding K_BAD engine (VL []) (VL [])].
